@@ -27,3 +27,4 @@ run P07 C14 C09
 run P08 C14 C20
 run P09 C19
 run P10 C19 C02
+run R1 C02 C12
